@@ -940,3 +940,67 @@ Proof.
   - intros y; tauto.
   - intros pre x post E. destruct pre; discriminate.
 Qed.
+
+(* ------------------------------------------------------------------ GROUPING SETS: one table over the expanded rows = the union of the per-set aggregations *)
+Lemma grouped_app_disjoint : forall {A B} (F : list A -> B) (a b : list (row * A)),
+  (forall k, In k (map fst a) -> ~ In k (map fst b)) ->
+  Permutation (grouped F (a ++ b)) (grouped F a ++ grouped F b).
+Proof.
+  intros A B F a b D. apply keyed_perm.
+  - apply grouped_nodup.
+  - rewrite map_app. apply nodup_app; try apply grouped_nodup.
+    intros k Ha Hb. apply grouped_keys in Ha. apply grouped_keys in Hb. exact (D k Ha Hb).
+  - intros [k v]. rewrite in_app_iff, !grouped_In, map_app, in_app_iff, members_app. split.
+    + intros [[Ha|Hb] ->].
+      * left. split; auto. rewrite (members_notin k b (D k Ha)), app_nil_r. reflexivity.
+      * right. split; auto. rewrite (members_notin k a); [reflexivity|]. intros Ha. exact (D k Ha Hb).
+    + intros [[Ha ->]|[Hb ->]].
+      * split; auto. rewrite (members_notin k b (D k Ha)), app_nil_r. reflexivity.
+      * split; auto. rewrite (members_notin k a); [reflexivity|]. intros Ha. exact (D k Ha Hb).
+Qed.
+Lemma grouped_concat_disjoint : forall {A B} (F : list A -> B) (ls : list (list (row * A))),
+  ForallOrdPairs (fun a b => forall k, In k (map fst a) -> ~ In k (map fst b)) ls ->
+  Permutation (grouped F (concat ls)) (concat (map (grouped F) ls)).
+Proof.
+  intros A B F ls H. induction H as [|a ls Ha Hl IH]; [constructor|]. cbn [concat map].
+  etransitivity; [apply grouped_app_disjoint | apply Permutation_app_head; exact IH].
+  intros k Hk Hc. rewrite concat_map, in_concat in Hc. destruct Hc as [ks [Hks Hin]].
+  apply in_map_iff in Hks. destruct Hks as [b [<- Hb]]. rewrite Forall_forall in Ha. exact (Ha b Hb k Hk Hin).
+Qed.
+Lemma set_rows_key_id : forall {A} (mo : list bool * Z) (l : list (row * A)) k,
+  In k (map fst (set_rows mo l)) -> exists k0, k = k0 ++ [VInt (set_id (fst mo) (snd mo))].
+Proof.
+  intros A mo l k H. unfold set_rows in H. rewrite map_map in H. apply in_map_iff in H. destruct H as [p [<- _]].
+  cbn [fst]. eexists; reflexivity.
+Qed.
+Lemma ord_pairs_of_nodup : forall {X Y} (f : X -> Y) (R : X -> X -> Prop) (l : list X),
+  NoDup (map f l) -> (forall a b, f a <> f b -> R a b) -> ForallOrdPairs R l.
+Proof.
+  intros X Y f R l. induction l as [|a l IH]; intros N H; [constructor|]. cbn [map] in N. inversion N as [|? ? Hn Hd]; subst.
+  constructor; [|apply IH; auto]. apply Forall_forall. intros b Hb. apply H. intros E. apply Hn. rewrite E. apply in_map. exact Hb.
+Qed.
+
+(* for a non-empty input, provided the grouping ids of the sets are pairwise distinct (they are when all masks have the
+   same length <= 64 - bits(max ordinal): group_id_array) *)
+Theorem grouping_sets_union_proof : forall fn (ms : list (list bool)) (l : list (row * value)),
+  l <> [] -> NoDup (map (fun mo : list bool * Z => set_id (fst mo) (snd mo)) (with_ordinals [] ms)) ->
+  Permutation (grouping_sets_exec fn ms l) (grouping_sets_def fn ms l).
+Proof.
+  intros fn ms l Hl N. unfold grouping_sets_exec, grouping_sets_def, grouping_sets_rows, grouping_sets_groups.
+  rewrite ref_groups_grouped.
+  assert (E : map (fun g : row * list value => (fst g, agg_apply fn (snd g)))
+                  (concat (map (fun mo => set_groups mo l) (with_ordinals [] ms)))
+              = concat (map (grouped (agg_apply fn)) (map (fun mo => set_rows mo l) (with_ordinals [] ms)))).
+  { rewrite concat_map, !map_map. f_equal. apply map_ext. intros mo. unfold set_groups, grouped.
+    destruct l; [contradiction|reflexivity]. }
+  rewrite E. apply grouped_concat_disjoint.
+  set (f := fun mo : list bool * Z => set_id (fst mo) (snd mo)) in *.
+  assert (P : ForallOrdPairs (fun a b : list bool * Z =>
+               forall k, In k (map fst (set_rows a l)) -> ~ In k (map fst (set_rows b l))) (with_ordinals [] ms)).
+  { apply (ord_pairs_of_nodup f); auto. intros a b Hne k Ha Hb.
+    apply set_rows_key_id in Ha. apply set_rows_key_id in Hb. destruct Ha as [ka Ea], Hb as [kb Eb].
+    rewrite Ea in Eb. apply app_inj_tail in Eb. destruct Eb as [_ Eb]. inversion Eb. apply Hne. assumption. }
+  clear -P. induction P as [|a ls Ha Hl IH]; [constructor|]. cbn [map]. constructor; auto.
+  apply Forall_forall. intros b Hb. apply in_map_iff in Hb. destruct Hb as [mo [<- Hmo]].
+  rewrite Forall_forall in Ha. exact (Ha mo Hmo).
+Qed.
